@@ -104,6 +104,20 @@ def lying_keys(rnd, n):
     return out
 
 
+def reserved_keys(rnd, n):
+    """Small str-keyed dicts whose keys are words that mean something to the functions that BUILD a TypedDict (keyword
+    parameters of mypy_extensions.TypedDict and of type construction): they are keys like any other."""
+    words = ["total", "cls", "_typename", "_fields", "fields", "self", "name", "bases", "ns", "typename", "a"]
+    out = []
+    for _ in range(n):
+        k = rnd.choice([2, 3, 10])
+        ks = rnd.sample(words, rnd.randrange(1, min(k, 3) + 1))
+        d = {x: rnd.choice([1, "s", None, True]) for x in ks}
+        wrap = rnd.choice(["plain", "plain", "list", "pair"])
+        out.append((k, {"plain": [d], "list": [[d, dict(d)]], "pair": [d, {ks[0]: 2.5}]}[wrap]))
+    return out
+
+
 def equal_hashables(rnd, n):
     """Sets / dict keys holding values that compare (and hash) equal but have different classes - 1, True, 1.0 and
     tuples of them - typed one after the other in one process: any memoisation keyed by equality shows up."""
@@ -134,6 +148,7 @@ def generate(seed, n_random, with_small_scope, extra_cases=()):
     raw.extend(str_subclass_keys(rnd, max(60, n_random // 20)))
     raw.extend(equal_hashables(rnd, max(30, n_random // 40)))
     raw.extend(lying_keys(rnd, max(30, n_random // 40)))
+    raw.extend(reserved_keys(rnd, max(40, n_random // 30)))
     for i in range(n_random):
         k = rnd.choice(KS)
         raw.append((k, g.values()))
